@@ -120,6 +120,40 @@ CALL_TEMPLATES = [
 	'def {n}_h(p: int, q: bool) -> bool:\n\treturn p {1} 0 and q\n\ndef {n}({h}) -> int:\n\tif {n}_h(a, c) or {n}_h(b, not c):\n\t\treturn 1\n\treturn 0\n',
 	'def {n}_h(p: int) -> int:\n\tif p {1} 0:\n\t\traise Exception()\n\treturn p + 1\n\ndef {n}({h}) -> int:\n\treturn {n}_h(a) + {n}_h(b)\n',
 ]
+LIST_HEAD = 'xs: list[int], a: int, b: int, c: bool'
+LIST_TEMPLATES = [
+	# iteration: for-in with accumulation, break / continue, nesting
+	'def {n}({h}) -> int:\n\tt = 0\n\tfor x in xs:\n\t\tt = t {0} x\n\treturn t\n',
+	'def {n}({h}) -> int:\n\tt = 0\n\tfor x in xs:\n\t\tif x {1} a:\n\t\t\tcontinue\n\t\tif x {2} b:\n\t\t\tbreak\n\t\tt += x\n\treturn t\n',
+	'def {n}({h}) -> int:\n\tt = 0\n\tfor x in xs:\n\t\tfor y in xs:\n\t\t\tif x {1} y:\n\t\t\t\tt += 1\n\treturn t\n',
+	'def {n}({h}) -> int:\n\tfor x in xs:\n\t\ta = a {0} x\n\t\tif a {1} b:\n\t\t\treturn x\n\treturn a\n',
+	# enumerate, without and with continue
+	'def {n}({h}) -> int:\n\tt = 0\n\tfor i, x in enumerate(xs):\n\t\tt += i {0} x\n\treturn t\n',
+	'def {n}({h}) -> int:\n\tt = 0\n\tfor i, x in enumerate(xs):\n\t\tif x {1} a:\n\t\t\tcontinue\n\t\tt += i\n\treturn t\n',
+	'def {n}({h}) -> int:\n\tt = 0\n\tfor i, x in enumerate(xs):\n\t\tif x {1} a:\n\t\t\tbreak\n\t\tt = i {0} x\n\treturn t\n',
+	# indexing: counted loop, symbolic index, last element, constant negative index
+	'def {n}({h}) -> int:\n\tt = 0\n\tfor i in range(len(xs)):\n\t\tt = t {0} xs[i]\n\treturn t\n',
+	'def {n}({h}) -> int:\n\treturn xs[a] {0} b\n',
+	'def {n}({h}) -> int:\n\tif a {1} 0 and a < len(xs):\n\t\treturn xs[a] {0} b\n\treturn b\n',
+	'def {n}({h}) -> int:\n\tif len(xs) > 0:\n\t\treturn xs[0] {0} xs[len(xs) - 1]\n\treturn 0\n',
+	'def {n}({h}) -> int:\n\treturn xs[-1] {0} a\n',
+	'def {n}({h}) -> int:\n\tt = 0\n\tfor i in range(len(xs) - 1, -1, -1):\n\t\tt = t {0} xs[i]\n\t\tif t {1} a:\n\t\t\tbreak\n\treturn t\n',
+	'def {n}({h}) -> int:\n\tys = [a, b, a {0} b]\n\tfor y in ys:\n\t\tif y {1} 0:\n\t\t\ty = 0\n\treturn ys[0] + ys[1] + ys[2]\n',
+	# len in arithmetic and comparisons
+	'def {n}({h}) -> int:\n\tif len(xs) {1} a:\n\t\treturn 1\n\treturn len(xs) {0} b\n',
+	'def {n}({h}) -> int:\n\tn = len(xs)\n\tif n - a {1} 0:\n\t\treturn n\n\treturn n {0} b\n',
+	'def {n}({h}) -> bool:\n\treturn len(xs) - a {1} b\n',
+	# membership
+	'def {n}({h}) -> int:\n\tif a in xs and b not in xs:\n\t\treturn 1\n\tif a {1} b or a in xs:\n\t\treturn 2\n\treturn 3\n',
+	# local lists: literal, append, item assignment
+	'def {n}({h}) -> int:\n\tys = [a, b {0} 1]\n\tys.append(a {0} b)\n\treturn ys[2] - ys[0] + len(ys)\n',
+	'def {n}({h}) -> int:\n\tys = [a, b, 0]\n\tys[2] = a {0} b\n\tys[0] = ys[1]\n\treturn ys[0] + ys[2]\n',
+	'def {n}({h}) -> int:\n\tys: list[int] = []\n\ti = 0\n\twhile i < 3:\n\t\tys.append(i {0} a)\n\t\ti += 1\n\treturn ys[1] + len(ys)\n',
+	'def {n}({h}) -> int:\n\tys: list[int] = []\n\tfor x in xs:\n\t\tif x {1} a:\n\t\t\tys.append(x {0} b)\n\tt = 0\n\tfor y in ys:\n\t\tt += y\n\treturn t + len(ys)\n',
+	# comprehensions
+	'def {n}({h}) -> int:\n\tys = [x {0} a for x in xs]\n\tt = 0\n\tfor y in ys:\n\t\tt += y\n\treturn t\n',
+	'def {n}({h}) -> int:\n\tys = [x {0} a for x in xs if x {1} b]\n\treturn len(ys) + (ys[0] if len(ys) > 0 else 0)\n',
+]
 AUG = ['+', '-', '*', '%', '<<', '>>', '&', '|', '^']
 
 
@@ -138,6 +172,16 @@ def statement_shapes(tier: str, seed: int) -> list:
 			if src not in seen:
 				seen.add(src)
 				out.append(('statement' if ti < len(STATEMENT_TEMPLATES) else 'call', src))
+	lcombos = list(itertools.product(['+', '-', '&', '|', '^'], CMP, CMP))  # no products of two symbolic values inside unrolled loops (solver cost)
+	for tmpl in LIST_TEMPLATES:
+		seen = set()
+		for c in rnd.sample(lcombos, 120 if tier == 'thorough' else 8):
+			src = tmpl.replace('{h}', LIST_HEAD)
+			for i, v in enumerate(c):
+				src = src.replace('{%d}' % i, v)
+			if src not in seen:
+				seen.add(src)
+				out.append(('list', src))
 	return out
 
 
